@@ -60,6 +60,7 @@ func HarnessAcquireTasks() {
 	}
 	// the scheduler side
 	launchedFor := map[*Descriptor]*Task{}
+	var everLaunched []*Task // also by attempts that failed as a whole and were retried
 	go func() {
 		for {
 			<-w.m.reviveOffersTrg
@@ -76,6 +77,7 @@ func HarnessAcquireTasks() {
 					offer := &mesos.Offer{ID: mesos.OfferID{Value: "offer-" + d.TaskClassName}, AgentID: mesos.AgentID{Value: "agent-new"}, Hostname: "host-new"}
 					t := w.m.newTaskForMesosOffer(offer, d, nil, mesos.ExecutorID{Value: "exec-new"})
 					launchedFor[d] = t // (a new attempt launches anew: the earlier attempt's task is the cleanup's business)
+					everLaunched = append(everLaunched, t)
 					out.deployed[t] = d
 				case notThisRound:
 					out.undeployed = append(out.undeployed, d)
@@ -111,7 +113,7 @@ func HarnessAcquireTasks() {
 		}
 		vrt.Reach("acquired")
 	} else {
-		for _, t := range launchedFor {
+		for _, t := range everLaunched {
 			vrt.Assert(t.GetParent() == nil, "failed-acquisition-leaves-no-task-owned")
 			vrt.Assert(w.m.GetTask(t.taskId) == t, "tasks-launched-by-a-failed-acquisition-are-in-the-roster-for-the-next-cleanup")
 		}
